@@ -42,6 +42,11 @@ structure PermPre (env : Env) (s : State) (txs : List Tx) : Prop where
   markers : ∀ t ∈ txs, t.kind = .faucet → env.isGrandfathered t.hash = false →
               (∀ u ∈ txs, (⟨env.fdp t.hash, 0⟩ : CoinID) ∉ u.inputs ∧ env.fdp t.hash ≠ u.hash) ∧
               (∀ u ∈ txs, u.kind = .faucet → env.fdp u.hash = env.fdp t.hash → u = t)
+  /-- the de-duplication pseudo-coin of a grandfathered faucet transaction (which `handle_faucet_tx` looks up
+      but never inserts) is not spent inside the batch: otherwise the verdict depends on whether the spender
+      comes before or after the faucet transaction (see the counterexample in the report) -/
+  gfMarkers : ∀ t ∈ txs, t.kind = .faucet → env.isGrandfathered t.hash = true →
+              ∀ u ∈ txs, (⟨env.fdp t.hash, 0⟩ : CoinID) ∉ u.inputs
   /-- the coins the batch creates are new -/
   fresh : ∀ t ∈ txs, ∀ i, s.coins.getCoin ⟨t.hash, i⟩ = none
   counts : CountsFine s.coins
@@ -49,37 +54,178 @@ structure PermPre (env : Env) (s : State) (txs : List Tx) : Prop where
   feePool : s.feePool ≤ U128_MAX
   tips : s.tips ≤ U128_MAX
 
+/-! glue between the bundled definitions above and the unbundled lemmas of Lemmas/Perm.lean -/
+
+theorem sortedTxs_pairwise : ∀ {l : List Tx}, SortedTxs l → l.Pairwise C3.TxLt
+  | [], _ => List.Pairwise.nil
+  | [_], _ => List.pairwise_singleton _ _
+  | a :: b :: rest, h => by
+    obtain ⟨h1, h2⟩ := h
+    have ih := sortedTxs_pairwise h2
+    refine List.pairwise_cons.mpr ⟨fun y hy => ?_, ih⟩
+    rw [List.pairwise_cons] at ih
+    rcases List.mem_cons.mp hy with rfl | hy
+    · exact h1
+    · exact C3.TxLt.trans h1 (ih.1 y hy)
+
+theorem countsFine_iff (m : CoinMap) : CountsFine m ↔ CountsOk m := Iff.rfl
+
+theorem PermPre.toPre {env : Env} {s : State} {txs : List Tx} (h : PermPre env s txs) : C3.Pre env s txs where
+  hashes := h.hashes
+  markers := h.markers
+  gfMarkers := h.gfMarkers
+  fresh := h.fresh
+  counts := (countsFine_iff _).mp h.counts
+  sorted := sortedTxs_pairwise h.sorted
+
+/-- the standing assumptions do not depend on the order of the batch -/
+theorem PermPre.perm {env : Env} {s : State} {txs txs' : List Tx} (hp : txs.Perm txs')
+    (h : PermPre env s txs) : PermPre env s txs' where
+  hashes := (hp.map _).nodup_iff.mp h.hashes
+  markers := fun t ht hk hb =>
+    ⟨fun u hu => (h.markers t (hp.mem_iff.mpr ht) hk hb).1 u (hp.mem_iff.mpr hu),
+     fun u hu => (h.markers t (hp.mem_iff.mpr ht) hk hb).2 u (hp.mem_iff.mpr hu)⟩
+  gfMarkers := fun t ht hk hb u hu => h.gfMarkers t (hp.mem_iff.mpr ht) hk hb u (hp.mem_iff.mpr hu)
+  fresh := fun t ht => h.fresh t (hp.mem_iff.mpr ht)
+  counts := h.counts
+  sorted := h.sorted
+  feePool := h.feePool
+  tips := h.tips
+
 /-- **order independence**: if a batch is accepted, every permutation of it is accepted, with the same
     observable state -/
 theorem C03_perm (env : Env) (s s₁ : State) (txs txs' : List Tx) (fb : Header) (hp : txs.Perm txs')
     (hpre : PermPre env s txs) (h : applyBatch env s txs fb = .ok s₁) :
     ∃ s₂, applyBatch env s txs' fb = .ok s₂ ∧ BatchEquiv s₁ s₂ := by
-  sorry
+  obtain ⟨s₂, h2, e⟩ := C3.perm_main hp hpre.toPre h
+  exact ⟨s₂, h2, ⟨e.coins, e.counts, e.stakes, e.txs, e.feePool, e.tips, e.feeMultiplier, e.doscSpeed,
+    e.pools, e.history, e.height, e.network⟩⟩
 
 /-- … and if a batch is rejected (or crashes), no permutation of it is accepted -/
 theorem C03_perm_reject (env : Env) (s : State) (txs txs' : List Tx) (fb : Header) (hp : txs.Perm txs')
     (hpre : PermPre env s txs) (h : ∀ s₁, applyBatch env s txs fb ≠ .ok s₁) :
     ∀ s₂, applyBatch env s txs' fb ≠ .ok s₂ := by
-  sorry
+  intro s₂ h2
+  obtain ⟨s₁, h1, -⟩ := C03_perm env s s₂ txs' txs fb hp.symm (hpre.perm hp) h2
+  exact h s₁ h1
 
 /-- the reductions used by the parallel code are order-independent folds: the conjunction of validity … -/
 theorem C03_forall_perm {α} (f : α → Outcome Unit) (l l' : List α) (hp : l.Perm l') :
-    (Outcome.forM' f l = .ok ()) ↔ (Outcome.forM' f l' = .ok ()) := by
-  sorry
+    (Outcome.forM' f l = .ok ()) ↔ (Outcome.forM' f l' = .ok ()) :=
+  C3.forM'_perm f hp
 
 /-- … the maximum of the demonstrated speeds with the old speed as unit … -/
 theorem C03_max_perm (l l' : List Nat) (hp : l.Perm l') (init : Nat) :
-    l.foldl max init = l'.foldl max init := by
-  sorry
+    l.foldl max init = l'.foldl max init :=
+  C3.foldl_max_perm hp init
 
 /-- … and the saturating fee accumulation (`min cap (Σ)`) -/
 theorem C03_satsum_perm (l l' : List Nat) (hp : l.Perm l') (init : Nat) :
-    l.foldl satAdd128 init = l'.foldl satAdd128 init := by
-  sorry
+    l.foldl satAdd128 init = l'.foldl satAdd128 init :=
+  C3.foldl_satAdd_perm hp init
 
 /-- the sorted transaction set does not depend on the insertion order -/
 theorem C03_txset_perm (base : List Tx) (l l' : List Tx) (hp : l.Perm l') (hs : SortedTxs base)
-    (hu : (l.map (·.hash)).Nodup) : l.foldl State.insertTx base = l'.foldl State.insertTx base := by
-  sorry
+    (hu : (l.map (·.hash)).Nodup) : l.foldl State.insertTx base = l'.foldl State.insertTx base :=
+  C3.foldl_insertTx_perm hp (sortedTxs_pairwise hs) hu
+
+/-! ### why `PermPre.gfMarkers` is needed
+
+`handle_faucet_tx` looks up the de-duplication pseudo-coin of EVERY faucet transaction, but inserts it only
+for the non-grandfathered ones.  If the pseudo-coin of a grandfathered faucet transaction `u` is an unspent
+coin that another transaction `v` of the batch spends, then `[v, u]` is accepted (when `u` is reached the
+coin is gone) while `[u, v]` is rejected with `DuplicateTx`.  All the other fields of `PermPre` hold. -/
+namespace C03Witness
+
+def env : Env := {
+  vm := { hash := id, sigOk := fun _ _ _ => true },
+  liqHash := id, fdp := fun h => 9 :: h, rewardId := fun _ => [], hdrHash := fun _ => [],
+  powOk := fun _ _ _ _ => .invalid, isGrandfathered := fun _ => true,
+  historyRoot := fun _ => [], coinsRoot := fun _ => [], txsRoot := fun _ _ => [],
+  poolsRoot := fun _ => [], stakesRoot := fun _ => [] }
+
+/-- the covenant `PUSHI 1` -/
+def cov : Bytes := (VM.encodeAll [VM.Op.pushi 1]).getD []
+/-- the pseudo-coin of `u` -/
+def P : CoinID := ⟨[9, 2], 0⟩
+def s : State := {
+  network := .custom02, height := 10, history := [],
+  coins := { coins := [(P, ⟨⟨[7], 5, .mel, []⟩, 3⟩)], counts := [([7], 1)] },
+  txs := [], feePool := 0, feeMultiplier := 0, tips := 0, doscSpeed := 0, pools := [], stakes := [] }
+/-- an ordinary transaction spending `P` -/
+def v : Tx := {
+  kind := .normal, inputs := [P], outputs := [(⟨[8], 5, .mel, []⟩ : CoinData)], fee := 0,
+  covenants := [cov], data := [], sigs := [], hash := [1], rawLen := 0, covHashes := [[7]] }
+/-- a grandfathered faucet transaction whose pseudo-coin is `P` -/
+def u : Tx := {
+  kind := .faucet, inputs := [], outputs := [], fee := 0,
+  covenants := [], data := [], sigs := [], hash := [2], rawLen := 0, covHashes := [] }
+
+def isDup : Outcome State → Bool
+  | .reject .duplicateTx => true
+  | _ => false
+
+theorem eq_of_isDup {o : Outcome State} (h : isDup o = true) : o = .reject .duplicateTx := by
+  cases o with
+  | ok a => cases h
+  | crash c => cases h
+  | reject e => cases e <;> first | rfl | cases h
+
+theorem gfMarkers_needed :
+    [v, u].Perm [u, v] ∧ (([v, u] : List Tx).map (·.hash)).Nodup ∧
+    (∀ t ∈ [v, u], t.kind = .faucet → env.isGrandfathered t.hash = false →
+      (∀ w ∈ [v, u], (⟨env.fdp t.hash, 0⟩ : CoinID) ∉ w.inputs ∧ env.fdp t.hash ≠ w.hash) ∧
+      (∀ w ∈ [v, u], w.kind = .faucet → env.fdp w.hash = env.fdp t.hash → w = t)) ∧
+    (∀ t ∈ [v, u], ∀ i, s.coins.getCoin ⟨t.hash, i⟩ = none) ∧
+    CountsFine s.coins ∧ SortedTxs s.txs ∧ s.feePool ≤ U128_MAX ∧ s.tips ≤ U128_MAX ∧
+    (applyBatch env s [v, u] default).isOk = true ∧
+    applyBatch env s [u, v] default = .reject .duplicateTx := by
+  refine ⟨List.Perm.swap _ _ _, by decide, ?_, ?_, ?_, trivial, by decide, by decide,
+    by decide +kernel, eq_of_isDup (by decide +kernel)⟩
+  · intro t _ _ hb
+    cases hb
+  · intro t ht i
+    simp only [List.mem_cons, List.not_mem_nil, or_false] at ht
+    rcases ht with rfl | rfl <;> simp [s, v, u, P, CoinMap.getCoin, AList.get]
+  · refine ⟨by decide, by decide, ?_, ?_⟩
+    · intro a
+      by_cases ha : a = [7]
+      · subst ha; decide
+      · have ha' : ¬ ([7] : Hash) = a := fun h => ha h.symm
+        simp [s, P, CoinMap.coinCount, AList.get, ha']
+    · intro e he
+      simp only [s, List.mem_cons, List.not_mem_nil, or_false] at he
+      subst he
+      decide
+
+/-- non-vacuity: with a faucet transaction whose pseudo-coin is not spent, all of `PermPre` holds and the
+    batch is accepted in both orders -/
+def u' : Tx := {
+  kind := .faucet, inputs := [], outputs := [], fee := 0,
+  covenants := [], data := [], sigs := [], hash := [3], rawLen := 0, covHashes := [] }
+
+theorem nonvacuous : PermPre env s [v, u'] ∧ (applyBatch env s [v, u'] default).isOk = true ∧
+    (applyBatch env s [u', v] default).isOk = true := by
+  refine ⟨⟨by decide, ?_, ?_, ?_, gfMarkers_needed.2.2.2.2.1, trivial, by decide, by decide⟩,
+    by decide +kernel, by decide +kernel⟩
+  · intro t _ _ hb
+    cases hb
+  · intro t ht _ _ w hw
+    simp only [List.mem_cons, List.not_mem_nil, or_false] at ht hw
+    rcases ht with rfl | rfl <;> rcases hw with rfl | rfl <;> decide
+  · intro t ht i
+    simp only [List.mem_cons, List.not_mem_nil, or_false] at ht
+    rcases ht with rfl | rfl <;> simp [s, v, u', P, CoinMap.getCoin, AList.get]
+
+end C03Witness
 
 end Mel
+
+#print axioms Mel.C03_perm
+#print axioms Mel.C03_perm_reject
+#print axioms Mel.C03_forall_perm
+#print axioms Mel.C03_max_perm
+#print axioms Mel.C03_satsum_perm
+#print axioms Mel.C03_txset_perm
+#print axioms Mel.C03Witness.gfMarkers_needed
+#print axioms Mel.C03Witness.nonvacuous
